@@ -130,7 +130,58 @@ def _gate_atoms(fn: FunctionInfo, name_param: str, table_text: str):
     return atom_of
 
 
+def _gate_folded(ctx, fn: FunctionInfo, table_text: str, returns_lookup: bool) -> Optional[List[str]]:
+    """Fold an algorithm gate on probe registries (allowed: None / [] / lists; a one-name recommended list; a three-name table) and probe
+    names (listed, unlisted, empty, non-str): it hands out table[name] (resp. completes) exactly when the name is a str in the table and
+    in the allow-list - the caller's when that is non-empty, the recommended one otherwise - and raises UnsupportedAlgorithmError for every
+    other name.  None when the gate does not fold or a test was decided one way only (DESIGN 11.11): the truth table decides then."""
+    from ..fold import Inst, FuncVal, ExtVal, FoldRaise, is_unknown
+    eng = ctx.eng
+    F = eng.folder
+    if fn.cls is None:
+        return None
+    problems: List[str] = []
+    loc = None
+    if "['" in table_text:
+        loc = table_text.split("['")[1].split("']")[0]
+    F.start_trace()
+    try:
+        for allowed in (None, [], ["B"], ["A", "B"], ["Z", "C"]):
+            table = {"A": ExtVal("MODEL_A"), "B": ExtVal("MODEL_B"), "C": ExtVal("MODEL_C")}
+            other = {"A": ExtVal("OTHER_A"), "Z": ExtVal("OTHER_Z")}
+            algs = table if loc is None else {k: (table if k == loc else dict(other)) for k in ("alg", "enc", "zip")}
+            for name in ("A", "B", "C", "Z", "", 1, None, 1.5, ("A",)):
+                inst = Inst(fn.cls, {"algorithms": algs, "allowed": None if allowed is None else list(allowed), "recommended": ["A"]})
+                ok_want = isinstance(name, str) and name in table and (name in allowed if allowed else name in ["A"])
+                try:
+                    r = F.call(FuncVal(fn, None, inst), [name] if returns_lookup else [name, table], {})
+                    if is_unknown(r):
+                        return None
+                    got = "ok"
+                except FoldRaise as ex:
+                    got = getattr(getattr(ex.exc, "cls", None), "name", None) or getattr(ex, "name", "") or "?"
+                where = f"name={name!r}, allowed={allowed!r}, recommended=['A'], table A/B/C"
+                if ok_want and got != "ok":
+                    problems.append(f"an allowed, supported algorithm is refused ({where}: {got})")
+                elif not ok_want and got == "ok":
+                    problems.append(f"an algorithm that is not allowed passes the gate ({where})")
+                elif not ok_want and got != "UnsupportedAlgorithmError":
+                    problems.append(f"the gate refuses with {got}, not UnsupportedAlgorithmError ({where})")
+                elif ok_want and returns_lookup and r is not table[name]:
+                    problems.append(f"the gate hands out {r!r}, not the table entry of the requested name ({where})")
+    except AnalysisError:
+        return None
+    finally:
+        sided = F.one_sided()
+    return None if sided else problems
+
+
 def _check_gate(ctx, fn: FunctionInfo, name_param: str, table_text: str, returns_lookup: bool) -> bool:
+    folded = _gate_folded(ctx, fn, table_text, returns_lookup)
+    if folded is not None:
+        ctx.check(not folded, "R05.3", fn, fn.node, f"{fn.short} :: gate (folded on probe registries)", folded[0] if folded else "",
+                  "table[name] iff str, supported and in the allow-list in force; UnsupportedAlgorithmError otherwise", construct=f"gate {fn.short}")
+        return not folded
     atoms = ["supported", "allowed_truthy", "in_allowed", "in_recommended", "well_typed"]
     table = truth_table(fn, atoms, _gate_atoms(fn, name_param, table_text))
     good = True
